@@ -3,7 +3,8 @@ from __future__ import annotations
 from ..model import load_model
 from ..harness import build, run_paths
 from ..evalengine import pmap
-from ..simpengine import rule_inputs, variable_free_inputs, reduce_trace, applicable_rules, random_trees
+from ..simpengine import (rule_inputs, variable_free_inputs, reduce_trace, applicable_rules, random_trees,
+                          unary_chains)
 from ..derivengine import obj_to_tree, _strip_sym
 from ..termination import check_certificate_step, tree_size
 from .. import spec
@@ -49,10 +50,27 @@ def families():
     return out
 
 
+_BUDGET = {}
+
+
+def library_budget(model) -> int:
+    """the library's own REDUCTION_STEPS_BOUND, read from the source"""
+    if "v" not in _BUDGET:
+        import ast as _ast
+        v = 1000
+        for mod in model.modules.values():
+            b = mod.bindings.get("REDUCTION_STEPS_BOUND")
+            if b is not None and b[0] == "global" and isinstance(b[1], _ast.Constant) and isinstance(b[1].value, int):
+                v = b[1].value
+        _BUDGET["v"] = v
+    return _BUDGET["v"]
+
+
 def term_case(args):
     tree, label = args
     model = load_model()
-    tr = reduce_trace((tree, 400))
+    budget = library_budget(model)
+    tr = reduce_trace((tree, budget))
     out = {"tree": spec.show(tree), "label": label, "kind": tr["kind"], "size": tree_size(tree)}
     if tr["kind"] != "ok":
         out.update({k: v for k, v in tr.items() if k != "kind"})
@@ -70,7 +88,11 @@ def term_case(args):
                               "via": [e[0] for e in seq[seen[key] + 1:i + 1]]}
             break
         seen[key] = i
-    if seq[-2][1] is None:
+    if seq[-1][1] is None and "grew beyond" in seq[-1][0]:
+        out["grew"] = seq[-1][0]
+        out["unfinished"] = True
+        out["last_forms"] = [e[2] for e in seq[-4:-1] if e[2]]
+    elif seq[-2][1] is None or seq[-1][1] is None:
         out["unfinished"] = True
     cert = []
     for e0, e1 in zip(seq, seq[1:-1]):
@@ -96,7 +118,7 @@ def term_case(args):
 def check(rep):
     model = load_model()
     tier = rep.tier
-    inputs = rule_inputs(model, tier) + variable_free_inputs(model) + families()
+    inputs = rule_inputs(model, tier) + variable_free_inputs(model) + families() + unary_chains(model, tier)
     inputs += random_trees(rep.seed, 60 if tier == "quick" else 600, 30 if tier == "quick" else 80)
     results = pmap(term_case, inputs, chunksize=8)
     per = {}
@@ -109,7 +131,12 @@ def check(rep):
             rep.unknown("C11.trace", label, "", f"interpreter: {out['msg']} on {out['tree']}")
             continue
         if out["kind"] == "raise":
-            rep.unknown("C11.trace", label, out.get("origin", ""), f"normalising {out['tree']} raised {out['exc']}")
+            if out["exc"] == "RecursionError":
+                rep.violation("C11.budget", label, out.get("origin", ""),
+                              f"normalising the {out['size']}-node input {out['tree']} ends in RecursionError (unbounded growth)",
+                              witness_class=f"recursion {label}")
+            else:
+                rep.unknown("C11.trace", label, out.get("origin", ""), f"normalising {out['tree']} raised {out['exc']}")
             continue
         bad = False
         rep.count("rewrite_steps_observed", max(out["n_steps"], 0))
@@ -119,13 +146,20 @@ def check(rep):
                           f"rewriting {out['tree']} revisits the form {r['form']} (step {r['first']} and again step "
                           f"{r['again']}) via {' -> '.join(r['via'])}", witness=out, witness_class=f"cycle {label}")
             bad = True
-        if any("nable to fully reduce" in w[1] for w in out.get("warnings", [])) and out["size"] <= 20:
+        if out["kind"] == "ok" and out.get("grew") and out["size"] <= 20:
+            rep.violation("C11.growth", label, "",
+                          f"rewriting the {out['size']}-node input {out['tree']} {out['grew'].strip('<>')}: the expression grows "
+                          f"without bound (e.g. {out.get('last_forms', ['?'])[-1][:200]} ...)", witness=None,
+                          witness_class=f"growth {label}")
+            bad = True
+        elif out["kind"] == "ok" and (out.get("unfinished") or any("nable to fully reduce" in w[1] for w in out.get("warnings", []))) \
+                and out["size"] <= 20:
             rep.violation("C11.budget", label, "",
-                          f"_normalize() of the {out['size']}-node input {out['tree']} exhausts the library's own step "
-                          f"budget and falls back to the warning path", witness=out, witness_class=f"budget {label}")
+                          f"the {out['size']}-node input {out['tree']} is not fully reduced within the library's own step "
+                          f"budget (REDUCTION_STEPS_BOUND): _fully_reduce falls back to the warning path", witness=out, witness_class=f"budget {label}")
             bad = True
         elif out.get("unfinished"):
-            rep.unknown("C11.trace", label, "", f"{out['tree']}: more than 400 rewrite steps")
+            rep.unknown("C11.trace", label, "", f"{out['tree']} ({out['size']} nodes): the library's step budget is exhausted")
             bad = True
         if "not_rule_free" in out:
             n = out["not_rule_free"]
